@@ -129,6 +129,15 @@ func runC07(c *core.Case) {
 		c.Tag("h>=32")
 	}
 
+	if r.P(0.02) { // non-canonical numerals in the input: the result is still the canonical ID of the shifted voxel
+		rs := respell(r, s)
+		if g := operated.GetShiftingSpatialID(rs, dx1, dy1, dv1); g != ref.Shift(id, dx1, dy1, dv1).Ext() {
+			c.Fail("shift-value-respelled", nil, "GetShiftingSpatialID(%q,%d,%d,%d) = %q, want %q", rs, dx1, dy1, dv1, g, ref.Shift(id, dx1, dy1, dv1).Ext())
+			return
+		}
+		c.Call()
+		c.Tag("respelled-numerals")
+	}
 	got1 = operated.GetShiftingSpatialID(s, dx1, dy1, dv1)
 	c.Call()
 	want1 := ref.Shift(id, dx1, dy1, dv1)
